@@ -148,6 +148,14 @@ func cmdCheck(args []string) (code int) {
 		}()
 		check(c)
 	}()
+	if *tier == "thorough" && !*noEvidence {
+		self, err := os.Executable()
+		if err == nil {
+			if res := rules.RunBreakers(c, self); res != nil {
+				c.Extra = map[string]any{"selftest_breakers": res}
+			}
+		}
+	}
 	return c.Finish(start, "other", findings)
 }
 
